@@ -851,7 +851,19 @@ def check_quarter_fold(run, ix):
                any(isinstance(c, ast.Call) and norm(c.func) == 'divmod' and len(c.args) == 2 and
                    norm(c.args[1]) == '0.5' for c in _walk_own(f.node))]
     if not helpers:
-        raise AnalysisError('F-R10: reduction by divmod(x, 0.5) not found')
+        # the helper that the real *pi functions call for their reduction
+        called = set(norm(c.func) for f in m2.funcs.values() if f.name in ('_sinpi_real', '_cospi_real')
+                     for c in _walk_own(f.node) if isinstance(c, ast.Call) and isinstance(c.func, ast.Name))
+        red = [f for f in m2.funcs.values() if f.parent is None and f.name in called and 'reduce' in f.name]
+        if not red:
+            raise AnalysisError('F-R10: reduction by divmod(x, 0.5) not found')
+        for f in red:
+            rets = [r for r in _walk_own(f.node) if isinstance(r, ast.Return)]
+            run.fail(F('F-R10', MATH2, f.qualname, rets[-1] if rets else f.node,
+                       'the argument is not reduced by divmod(x, 0.5), which is exact in floating point: a formula that '
+                       'forms 2*x + 1/2 (or x/0.5 rounded) is inexact for 2^51 <= x < 2^52, where the half-integers are '
+                       'reduced to r = -1/2 instead of 0 and fp.cospi returns 6e-17 instead of the exact 0'))
+        return
     for f in helpers:
         dm = [x for x in _walk_own(f.node) if isinstance(x, ast.Assign) and isinstance(x.value, ast.Call) and
               norm(x.value.func) == 'divmod' and isinstance(x.targets[0], ast.Tuple)]
